@@ -15,6 +15,9 @@ from common import rng
 import store as S
 
 FAMILY = "storefault"
+# the fault steps of Model/StoreFault.lean follow the DOCUMENTED failure paths; the open findings F31s-* are exactly the inputs on which the
+# real code (SQLite's whole-transaction rollback on NOMEM, statements left open) deviates from them, so there the model is not compared
+COMPARE_ON_KNOWN = False
 HARNESS = {"source": "x_storefault.c", "leak_clean": False}
 RULE = ("store histories (<= 30 ops) with 1-4 faulted calls each (k-th SQLite / ICU allocation of the call fails, k = 1..16), every faulted call "
         "repeated; non-trivial = a fault fired and the call returned an error; oracle = the store oracle (error => nothing changed, autocommit "
